@@ -6,7 +6,7 @@ cd "$(dirname "$0")/.."
 for SEED in "$@"; do
   for C in C01 C02 C03 C04 C05 C06 C07 C08 C09 C10 C11 C12 C13 C14 C15 C16 C17 C18 C19 C20; do
     OUT=$(./check $C --tier $TIER --seed $SEED 2>&1); RC=$?
-    echo "$OUT" | grep -v "^KNOWN-FINDING" | grep -E "^VIOLATION|^  class|INCONCLUSIVE|verdict=" | cut -c1-400
+    echo "$OUT" | grep -v "^KNOWN-FINDING" | grep -E "^VIOLATION|^  class|INCONCLUSIVE|verdict=" | head -8 | cut -c1-400
     [ $RC -ne 0 ] && echo "   ^^^ $C seed=$SEED exit=$RC"
   done
 done
